@@ -1362,6 +1362,9 @@ class Interp:
                 return a
             if short(n.get("callee", ""), 2) == "From::from" and "Box<" in str(n.get("ty", "")) and not isinstance(a, Opaque):
                 return a        # Box::from(x): the box is its content
+        if str(n.get("callee", "")).endswith(("mem::drop", "mem::forget")) and len(n["args"]) == 1:
+            self.ev(n["args"][0], env)
+            return ()
         if str(n.get("callee", "")).endswith(("mem::take", "mem::replace")) and n["args"]:
             # std::mem::take(&mut place) / replace(&mut place, v): the place gets the default / v, the old value returns
             r = n["args"][0]
